@@ -243,6 +243,11 @@ func runC11(c *wk.Ctx) {
 			c11Sequential(c, ctx, r, p, env, idx)
 		}
 		c11Concurrent(c, ctx, r, p, fresh, env, idx)
+		if idx < 4 {
+			step := p.stepIDs()[0]
+			c.Sample("plugin", map[string]any{"steps": p.stepIDs(), "first_step_input": clipStr(p.inShape[step].Describe(), 500),
+				"outputs": sortedKeys(p.outShape[step]), "signal_handlers": sortedKeys(p.sigShape[step]), "variant": c.Variant})
+		}
 	})
 }
 
@@ -362,7 +367,9 @@ func c11Sequential(c *wk.Ctx, ctx context.Context, r *wk.Rand, p *c11Plugin, env
 						// "the serialized output": what the output schema's own Serialize makes of the handler's value
 						var want any
 						var serr error
-						if pn, _, _, _ := wk.Guard(func() { want, serr = p.schema.StepsValue[stepID].Outputs()[oid].Schema().Serialize(cmpx.DeepCopy(outData)) }); !pn && serr == nil {
+						if pn, _, _, _ := wk.Guard(func() {
+							want, serr = p.schema.StepsValue[stepID].Outputs()[oid].Schema().Serialize(cmpx.DeepCopy(outData))
+						}); !pn && serr == nil {
 							c.Count("outputs_compared_with_serialized_form")
 							if cmpx.Canon(want) != cmpx.Canon(gotData) {
 								wit["expected"] = clipStr(cmpx.Canon(want), 600)
